@@ -130,7 +130,9 @@ def smoothed_projection(
     # need smoothings doesn't actually matter, since all our computations our
     # purely element-wise (no spatial locality) and those pixels will instead
     # rely on the standard projection. So just use 1, since it's well behaved.
-    nonzero_norm = jnp.abs(rho_filtered_grad_helper) > 0
+    # A squared gradient norm in the underflow range is "zero" as well: its reciprocal (which the backward pass of
+    # d = (eta - rho) / norm forms) overflows to inf, e.g. in the 1e-30 tail of a Gaussian bump in float32.
+    nonzero_norm = jnp.abs(rho_filtered_grad_helper) > jnp.finfo(rho_filtered_grad_helper.dtype).tiny ** 0.5
 
     rho_filtered_grad_norm = jnp.sqrt(jnp.where(nonzero_norm, rho_filtered_grad_helper, 1))
     rho_filtered_grad_norm_eff = jnp.where(nonzero_norm, rho_filtered_grad_norm, 1)
